@@ -18,9 +18,9 @@ fn first_header_garbage(full: bool) {
     // (Calling read() itself sends CBMC through the LZMA decode loop on the - infeasible - valid-header path: > 20 min.)
     let res = r.start_next_member();
     assert!(res.is_err(), "C04-D: input that is not an LZIP member was decoded as an empty file");
-    kani::cover!(n == 6 && magic_ok && b[4] != LZIP_VERSION, "unsupported version");
-    kani::cover!(n == 6 && magic_ok && b[4] == LZIP_VERSION, "bad dictionary byte");
-    kani::cover!(n < 6 && b[0] == LZIP_MAGIC[0], "truncated header");
+    kani::cover!(!full || (magic_ok && b[4] != LZIP_VERSION), "unsupported version (full-length variant)");
+    kani::cover!(!full || (magic_ok && b[4] == LZIP_VERSION), "bad dictionary byte (full-length variant)");
+    kani::cover!(full || b[0] == LZIP_MAGIC[0], "truncated header starting with the magic (truncated variant)");
     kani::cover!(true, "end reached");
     core::mem::forget(r);
 }
